@@ -162,3 +162,111 @@ Section Irr.
         left. eapply (incr_nth_lt grid k j); eauto. lia.
   Qed.
 End Irr.
+
+(* ---- nearest *)
+Section IrrNearest.
+  Variable erfR : R -> R.
+  Notation RN := (RNum erfR).
+
+  Lemma ss_left_zero l v : Forall (fun y => v <= y) l -> ss_left RN l v = 0%Z.
+  Proof.
+    induction 1 as [|y l Hy _ IH]; cbn [ss_left]; [reflexivity|].
+    num_R. destruct (Rltb y v) eqn:E; [apply Rltb_true in E; lra|]. rewrite IH. reflexivity.
+  Qed.
+
+  Lemma ss_left_split l v : incr l ->
+    exists k : nat, ss_left RN l v = Z.of_nat k /\ (k <= length l)%nat /\
+      Forall (fun y => y < v) (firstn k l) /\ Forall (fun y => v <= y) (skipn k l).
+  Proof.
+    induction l as [|b r IH]; intros Hs.
+    - exists 0%nat. cbn. repeat split; try constructor; try lia.
+    - cbn [ss_left]. num_R. destruct (Rltb b v) eqn:E.
+      + apply Rltb_true in E. destruct (IH (incr_tail _ _ Hs)) as [k [Ek [Hk [F1 F2]]]].
+        exists (S k). rewrite Ek. split; [lia|]. split; [cbn [length]; lia|].
+        cbn [firstn skipn]. split; [constructor; assumption|assumption].
+      + apply Rltb_false in E. assert (v <= b) by lra.
+        pose proof (incr_head_lt _ _ Hs) as Hall.
+        assert (Hall' : Forall (fun y => v <= y) r) by (eapply Forall_impl; [|exact Hall]; cbn; intros; lra).
+        rewrite (ss_left_zero r v Hall'). exists 0%nat. split; [reflexivity|]. split; [lia|].
+        cbn [firstn skipn]. split; [constructor|constructor; assumption].
+  Qed.
+
+  Lemma middles_length l : length (middles RN l) = (length l - 1)%nat.
+  Proof.
+    induction l as [|a [|b r] IH]; [reflexivity|reflexivity|].
+    change (middles RN (a :: b :: r)) with (ig_middle RN b a :: middles RN (b :: r)).
+    cbn [length] in *. rewrite IH. lia.
+  Qed.
+
+  Lemma middles_nth l j x y : nth_error l j = Some x -> nth_error l (S j) = Some y ->
+    nth_error (middles RN l) j = Some ((y + x) / 2).
+  Proof.
+    revert j. induction l as [|a [|b r] IH]; intros j Hx Hy.
+    - destruct j; discriminate.
+    - destruct j; cbn in Hy; [discriminate|destruct j; discriminate].
+    - change (middles RN (a :: b :: r)) with (ig_middle RN b a :: middles RN (b :: r)).
+      destruct j as [|j].
+      + cbn in Hx, Hy. inversion Hx; inversion Hy; subst. cbn [nth_error]. rewrite K_ig_middle. num_R. reflexivity.
+      + cbn [nth_error] in *. apply IH; assumption.
+  Qed.
+
+  Lemma middles_incr l : incr l -> incr (middles RN l).
+  Proof.
+    induction l as [|a [|b [|c r]] IH]; intros Hs; try exact I.
+    change (middles RN (a :: b :: c :: r)) with (ig_middle RN b a :: ig_middle RN c b :: middles RN (c :: r)).
+    destruct Hs as [Hab [Hbc Hr]]. split.
+    - rewrite !K_ig_middle. num_R. lra.
+    - apply (IH (conj Hbc Hr)).
+  Qed.
+
+  Lemma irr_nearest_eq grid v : irr_nearest RN grid v = py_get grid (ss_left RN (middles RN grid) v).
+  Proof.
+    unfold irr_nearest. cbv zeta. rewrite !K_ig_nearest_idx.
+    change (ig_nearest_gp_idx0 RN (ss_left RN (middles RN grid) v)) with (ss_left RN (middles RN grid) v).
+    destruct (py_get grid (ss_left RN (middles RN grid) v)); reflexivity.
+  Qed.
+
+  (* T: on a strictly increasing grid the result is a closest member *)
+  Theorem irregular_nearest grid v : incr grid -> grid <> [] ->
+    exists ne, irr_nearest RN grid v = Ok ne /\ In ne grid /\
+               forall y, In y grid -> Rabs (ne - v) <= Rabs (y - v).
+  Proof.
+    intros Hs Hne.
+    destruct (ss_left_split (middles RN grid) v (middles_incr grid Hs)) as [k [Ek [Hk [F1 F2]]]].
+    rewrite middles_length in Hk.
+    assert (Hlen : (0 < length grid)%nat) by (destruct grid; [congruence|cbn; lia]).
+    destruct (nth_error grid k) as [ne|] eqn:En; [|apply nth_error_None in En; lia].
+    exists ne. rewrite irr_nearest_eq, Ek, (py_get_nat grid k ne En).
+    split; [reflexivity|]. split; [eapply nth_error_In; eauto|].
+    rewrite Forall_forall in F1, F2.
+    intros y Hy. apply In_nth_error in Hy. destruct Hy as [i Hi].
+    assert (Hil : (i < length grid)%nat) by (apply nth_error_Some; congruence).
+    destruct (lt_eq_lt_dec i k) as [[Hlt|Heq]|Hgt].
+    - (* i < k: the middle between g_{k-1} and g_k lies below v *)
+      destruct (nth_error grid (k - 1)) as [p|] eqn:Ep; [|apply nth_error_None in Ep; lia].
+      assert (Em : nth_error (middles RN grid) (k - 1) = Some ((ne + p) / 2)).
+      { apply middles_nth; [exact Ep|]. replace (S (k - 1)) with k by lia. exact En. }
+      assert (Hm : (ne + p) / 2 < v).
+      { apply F1. assert (E' : nth_error (firstn k (middles RN grid)) (k - 1) = Some ((ne + p) / 2))
+          by (rewrite nth_error_firstn' by lia; exact Em).
+        eapply nth_error_In; eauto. }
+      assert (Hyp : y <= p).
+      { destruct (Nat.eq_dec i (k - 1)) as [->|Hn]; [rewrite Ep in Hi; inversion Hi; lra|].
+        left. eapply (incr_nth_lt grid i (k - 1)); eauto. lia. }
+      assert (Hpn : p < ne) by (eapply (incr_nth_lt grid (k - 1) k); eauto; lia).
+      rewrite (Rabs_left (y - v)) by lra. apply Rabs_le. lra.
+    - subst i. rewrite En in Hi. inversion Hi. lra.
+    - (* i > k: v is at most the middle between g_k and g_{k+1} *)
+      destruct (nth_error grid (S k)) as [q|] eqn:Eq; [|apply nth_error_None in Eq; lia].
+      assert (Em : nth_error (middles RN grid) k = Some ((q + ne) / 2)) by (apply middles_nth; assumption).
+      assert (Hm : v <= (q + ne) / 2).
+      { apply F2. assert (E' : nth_error (skipn k (middles RN grid)) 0 = Some ((q + ne) / 2))
+          by (rewrite nth_error_skipn'; replace (k + 0)%nat with k by lia; exact Em).
+        eapply nth_error_In; eauto. }
+      assert (Hyq : q <= y).
+      { destruct (Nat.eq_dec i (S k)) as [->|Hn]; [rewrite Eq in Hi; inversion Hi; lra|].
+        left. eapply (incr_nth_lt grid (S k) i); eauto. lia. }
+      assert (Hnq : ne < q) by (eapply (incr_nth_lt grid k (S k)); eauto).
+      rewrite (Rabs_pos_eq (y - v)) by lra. apply Rabs_le. lra.
+  Qed.
+End IrrNearest.
